@@ -6,7 +6,7 @@ CONSTANTS
   MaxFail = 3
   MaxCtl = 0
   Faults = {}
-  Ops = {"Msg", "Ban", "Blacklist", "Expire", "Bind", "Reload", "Corrupt"}
+  Ops = {"Msg", "Ban", "Blacklist", "Expire", "Bind"}
   Types = {"control", "tunnel"}
   PreAccept = TRUE
   Fixes = @@FIXES@@
